@@ -102,3 +102,23 @@ Theorem coord_float_error_go : forall n : Z,
   Rabs (RN (RN (1 / 1000000000) * RN (IZR n)) - IZR n / 1000000000) <= 1 / 10000000000.
 Proof. intros n Hn. rewrite (int_exact n Hn). exact (coord_float_error n Hn). Qed.
 Print Assumptions coord_float_error_go.
+
+(* ---------- composed with the PBF specification (wave 5) ---------- *)
+(* For every block description whose coordinates are within 4e14 nanodegrees (coords_small, a
+   boolean the correspondence check evaluates on every case: code 4), every coordinate n that an
+   element of the block carries - node lat/lon, way-node lat/lon - is turned by the decoder's
+   float64 expression 1e-9 * float64(n) into a value within 1e-10 degrees of n * 1e-9.
+   (That the decoder's integer n IS the element's coordinate is C01_decode_encode_block /
+   C01_field_order_irrelevant.) *)
+From Coq Require Import List Bool.
+From Verif Require Import Pbf.Tree Pbf.Model Pbf.Spec.
+
+Theorem elements_coord_float_error : forall b o n,
+  coords_small b = true -> In o (elements b) -> In n (obj_coords o) ->
+  (Rabs (RN (RN (1 / 1000000000) * RN (IZR n)) - IZR n / 1000000000) <= 1 / 10000000000)%R.
+Proof.
+  intros b o n H Ho Hn. apply coord_float_error_go.
+  unfold coords_small in H. rewrite forallb_forall in H. specialize (H o Ho).
+  rewrite forallb_forall in H. specialize (H n Hn). apply Z.leb_le in H. exact H.
+Qed.
+Print Assumptions elements_coord_float_error.
